@@ -65,6 +65,26 @@ func jobsFor(id, tier string) []*Job {
 		return j
 	}
 	switch id {
+	case "C10":
+		im := mk("bin", "zzverifw.H_C10_bin", ints(0, 4)) // + - * // % : Int theory with explicit wrap
+		im.IntMode = true
+		im.SolverMs = 3000
+		add(split(im)...)
+		add(split(mk("bin", "zzverifw.H_C10_bin", ints(5, 6)))...) // <=> and / : bit-vectors + FP
+		ng := mk("neg", "zzverifw.H_C10_neg", nil)
+		ng.IntMode = true
+		add(&ng)
+		exps := append(ints(0, 16), [][]int{{31}, {32}, {39}, {40}, {62}, {63}}...)
+		if thorough {
+			exps = ints(0, 63)
+		}
+		pw := mk("pow", "zzverifw.H_C10_pow", exps)
+		pw.IntMode = true
+		pw.SolverMs = 3000
+		add(split(pw)...)
+		pool := mk("powpool", "zzverifw.H_C10_pow_pool", [][]int{{2}, {3}, {5}, {9}, {19}, {35}, {62}})
+		pool.IntMode = true
+		add(split(pool)...)
 	case "C11":
 		nmax := 3
 		if thorough {
@@ -84,6 +104,12 @@ func assumptionsFor(id string) []string {
 		"harness oracles written from the property statement and docs (DESIGN.md Appendix B)",
 	}
 	switch id {
+	case "C10":
+		return append(common,
+			"Int-theory encoding: int64 values are mathematical integers kept in range by explicit wrap-around; Go's truncated / and % are fresh q, r constrained by a = q*b + r, |r| < |b|, sign(r) in {0, sign(a)}",
+			"engine lemmas added for the idiom `c := x*y; c/y != x` (both true in arithmetic for y != 0): x*y in range => c/y == x, c%y == 0; x*y out of range => c/y != x; and: an in-range product is unchanged by wrap-around",
+			"queries the incremental z3 4.8.12 core gives up on are re-asked one-shot to z3 5.1.0 and cvc5 1.0 (non-linear integer arithmetic); unknown stays inconclusive",
+			"** is checked per concrete exponent; the set of bases whose power fits is the interval computed concretely by the harness")
 	case "C11":
 		return append(common, "bounds are *PanInt or nil (other bound types are outside the statement)", "sequence lengths as listed in bounds; elements distinguishable by pointer identity")
 	}
@@ -93,6 +119,13 @@ func assumptionsFor(id string) []string {
 func boundsFor(id, tier string, jobs []*Job) map[string]interface{} {
 	b := map[string]interface{}{"tier": tier}
 	switch id {
+	case "C10":
+		b["operands"] = "a, b: any int64 (full 64-bit range) for + - * // % <=> / and unary -"
+		if tier == "thorough" {
+			b["power"] = "exponent each of 0..63 (concrete), base: every int64 whose power fits in 64 bits"
+		} else {
+			b["power"] = "exponent each of 0..16, 31, 32, 39, 40, 62, 63 (concrete), base: every int64 whose power fits in 64 bits"
+		}
 	case "C11":
 		if tier == "thorough" {
 			b["sequence_length"] = "0..5"
@@ -108,6 +141,8 @@ func boundsFor(id, tier string, jobs []*Job) map[string]interface{} {
 
 func outsideFor(id string) []string {
 	switch id {
+	case "C10":
+		return []string{"exponents above 63 (only bases -1, 0, 1 and -2**63 fit)", "negative exponents and powers that do not fit (statement is silent)", "Float operands and the nil-as-identity convention", "Int descendants (bear/new) as operands", "parsing of the operator expression (C02) and dispatch through Eval (see jobs: operators are called through the IntProps table)"}
 	case "C11":
 		return []string{"sequences longer than the bound", "bounds that are not ints or nil (floats, strs, descendants)", "Int#at bit slicing (same valRange/fixRange code, not asserted separately)", "parsing of the index expression"}
 	}
